@@ -44,7 +44,7 @@ def basis_like(tree, k, jax, jnp):
         v = np.zeros(n)
         if off <= k < off + n:
             v[k - off] = 1.0
-        out.append(jnp.asarray(v.reshape(np.shape(l)), dtype=jnp.result_type(l) if jnp.issubdtype(jnp.result_type(l), jnp.floating) else float))
+        out.append(jnp.asarray(v.reshape(np.shape(l)), dtype=jnp.result_type(l) if jnp.issubdtype(jnp.result_type(l), jnp.inexact) else float))
         off += n
     return jax.tree_util.tree_unflatten(td, out)
 
@@ -86,10 +86,12 @@ def build(inst, env, variant=0):
             return jft.Poissonian(jnp.array([1, 4]))
         if k == "vcgauss":
             return jft.VariableCovarianceGaussian(jnp.array([0.75]))
+        if k == "cvcgauss":
+            return jft.VariableCovarianceGaussian(jnp.array([0.75 + 0.5j]))
         if k == "vcstudent":
             return jft.VariableCovarianceStudentT(jnp.array([0.75]), dof)
         raise tlcmod.MachineryError(k)
-    two = kind in ("vcgauss", "vcstudent")
+    two = kind in ("vcgauss", "vcstudent", "cvcgauss")
 
     def wrap(Am):
         Aj = jnp.asarray(Am)
@@ -106,6 +108,8 @@ def build(inst, env, variant=0):
     if comp == "plain":
         lh = base(kind)
         p = (jnp.asarray(x[:1]), jnp.asarray(x[1:])) if two else jnp.asarray(x)
+        if kind == "cvcgauss":
+            p = (jnp.asarray(x[:1] + 0.25j), jnp.asarray(x[1:]))
         return lh, p, M
     if comp == "amend":
         lh = base(kind).amend(wrap(A), domain=jft.ShapeWithDtype((2,)))
@@ -149,6 +153,48 @@ def check_instance(inst, env, variant=0):
             out.append(("adjoint", "right_sqrt_metric is not the conjugate transpose of left_sqrt_metric"))
     except Exception as e:
         out.append(("factorisation-raises", "%s: %s" % (type(e).__name__, str(e)[:160])))
+    return out
+
+
+def check_complex(inst, env):
+    """complex data and a complex linear model C = A + i B on real or complex parameters (instances of kind cgaussian): the metric is
+    C^H N^-1 C (its real part on real parameters), L o R = M on every tangent, and R is the adjoint of L w.r.t. the real inner product"""
+    jax, jnp, jft = env
+    out = []
+    cp = inst["comp"] == "camend-complex"
+    C = jnp.asarray(qm(inst["A"]) + 1j * qm(inst["B"]))
+    icov = jnp.array([4., .25])
+    x = np.array([q(v) for v in inst["x"]])
+    M = qm(inst["M"]) + 1j * qm(inst["Mim"])
+    lh = jft.Gaussian(jnp.array([1. + 0.5j, -2. + 1j]), noise_cov_inv=lambda t: icov * t, noise_std_inv=lambda t: jnp.sqrt(icov) * t)
+    lh = lh.amend(lambda t: C @ t, domain=jft.ShapeWithDtype((2,), jnp.complex128 if cp else jnp.float64))
+    p = jnp.asarray(x + (0.5j * x[::-1] if cp else 0.))
+    pbasis = [np.eye(2)[k] * f for k in range(2) for f in ((1., 1j) if cp else (1.,))]
+    ubasis = [np.eye(2)[k] * f for k in range(2) for f in (1., 1j)]
+    pd = jnp.complex128 if cp else jnp.float64
+    try:
+        for t in pbasis:
+            tj = jnp.asarray(t, dtype=pd)
+            mt = np.asarray(lh.metric(p, tj))
+            exp = M @ t if cp else (M.real @ t)
+            if not np.allclose(mt, exp, rtol=RTOL, atol=ATOL):
+                out.append(("fisher", "metric on the tangent %s is %s, the Fisher information C^H N^-1 C gives %s" % (t.tolist(), np.round(mt, 6).tolist(), np.round(exp, 6).tolist())))
+                break
+            rt = lh.right_sqrt_metric(p, tj)
+            lr = np.asarray(lh.left_sqrt_metric(p, rt))
+            if not np.allclose(lr, mt, rtol=1e-9, atol=1e-11):
+                out.append(("factorisation", "left_sqrt_metric(right_sqrt_metric(t)) = %s differs from metric(t) = %s for t = %s (complex model)" % (np.round(lr, 6).tolist(), np.round(mt, 6).tolist(), t.tolist())))
+                break
+            for u in ubasis:
+                lu = np.asarray(lh.left_sqrt_metric(p, jnp.asarray(u, dtype=jnp.complex128)))
+                a, b = np.vdot(np.asarray(rt), u).real, np.vdot(t, lu).real
+                if not np.isclose(a, b, rtol=1e-9, atol=1e-11):
+                    out.append(("adjoint", "right_sqrt_metric is not the adjoint of left_sqrt_metric: Re<R t, u> = %.6g, Re<t, L u> = %.6g (t = %s, u = %s, complex model)" % (a, b, t.tolist(), u.tolist())))
+                    break
+            if out:
+                break
+    except Exception as e:
+        out.append(("complex-raises", "%s: %s" % (type(e).__name__, str(e)[:160])))
     return out
 
 
@@ -235,7 +281,7 @@ def batched_checks(env, emitted):
 
 def run(ctx):
     env = _jax()
-    r = ctx.tlc("LikelihoodRe", "SPECIFICATION Spec\nINVARIANT Symmetric\nINVARIANT PositiveDiagonal\nINVARIANT Emit\n", label="all instances", workers=1, timeout=900)
+    r = ctx.tlc("LikelihoodRe", "SPECIFICATION Spec\nINVARIANT Symmetric\nINVARIANT PositiveDiagonal\nINVARIANT Hermitian\nINVARIANT Emit\n", label="all instances", workers=1, timeout=900)
     insts = r.emitted
     if len(insts) < 100:
         raise tlcmod.MachineryError("too few instances emitted: %d" % len(insts))
@@ -243,7 +289,7 @@ def run(ctx):
         variants = (0, 1, 2) if inst["kind"] == "gaussian" and inst["comp"] in ("plain", "amend") else (0,)
         for v in variants:
             ctx.case((inst["kind"], inst["comp"], json.dumps(inst["x"]), json.dumps(inst["A"]), json.dumps(inst["B"]), json.dumps(inst["S"]), v))
-            for kind, msg in check_instance(inst, env, v):
+            for kind, msg in (check_complex(inst, env) if inst["kind"] == "cgaussian" else check_instance(inst, env, v)):
                 ctx.violation(dict(kind=kind, likelihood=inst["kind"], comp=inst["comp"]), "%s/%s at x=%s: %s" % (inst["kind"], inst["comp"], [q(t) for t in inst["x"]], msg),
                               replay=dict(instance=inst, variant=v))
     ctx.traces += len(insts)
@@ -265,7 +311,7 @@ def replay(ctx, doc):
     env = _jax()
     c = doc["case"]
     if "instance" in c:
-        for kind, msg in check_instance(c["instance"], env, c.get("variant", 0)):
+        for kind, msg in (check_complex(c["instance"], env) if c["instance"]["kind"] == "cgaussian" else check_instance(c["instance"], env, c.get("variant", 0))):
             ctx.violation(doc.get("key", dict(kind=kind)), msg, replay=c)
     ctx.case("replay")
     ctx.case("replay2")
